@@ -283,6 +283,9 @@ func (in *Interp) td(tx, ty float64) {
 }
 
 func (in *Interp) show(op Op) {
+	if op.Text == "" {
+		return // a string without character codes paints nothing and advances nothing
+	}
 	trm := Mul(in.tm, in.gs.ctm)
 	x, y := trm.Apply(0, 0)
 	atrm := Mul(in.absTm, in.gs.absCTM)
